@@ -5,7 +5,14 @@ import runner
 from props.parts import cratesv2 as cv
 
 LEAN_MODULES = ["Properties.C11V2"]
-THEOREMS = ["EngineModel.Properties.C11." + t for t in []]
+THEOREMS = ["EngineModel.Properties.C11V2." + t for t in [
+    "C11V2_step_preserves",
+    "C11V2_inv_wfRaw",
+    "C11V2_reachable_wfRaw",
+    "C11V2_reachable_structure",
+    "C11V2_reachable_wfChains_partial",
+    "C11V2_chains_counterexample",
+]]
 ASSUMPTIONS = [
     "2.x: C11's per-track derived columns (filename / fileType / origin ids) are outside this part (track work-package); this "
     "part covers the Playlist / PlaylistEntity chains, parent and membership references and the AUTOINCREMENT counters",
